@@ -7,8 +7,8 @@ TInit == MAInit /\ l = 1
 Ev == TraceLog[l]
 IsEvent(e) == l <= TraceLen /\ Ev.e = e /\ l' = l + 1
 
-TRecv == IsEvent("Recv") /\ Recv(Ev.n, Ev.src, Ev.id, Ev.qn, Ev.qt, Ev.tun)
-TAns == IsEvent("Ans") /\ Ans(Ev.dst, Ev.id, Ev.qn, Ev.qt, Ev.hdr)
+TRecv == IsEvent("Recv") /\ Recv(Ev.n, Ev.src, Ev.id, Ev.qn, Ev.lk, Ev.qt, Ev.tun)
+TAns == IsEvent("Ans") /\ Ans(Ev.dst, Ev.id, Ev.qn, Ev.lk, Ev.qt, Ev.hdr)
 TStepEnd == IsEvent("StepEnd") /\ StepEnd
 TReset == IsEvent("Reset") /\ MAReset
 \* an emitted non-DNS / question-less datagram on the DNS socket has no enabled action (event "Garbage")
